@@ -25,15 +25,15 @@ reachable configuration of every run (terminating or not), for closures flowing 
 boxes, globals, lists, with any arities and rest arguments; the frame limit never fires (`tail_only_never_overflows`);
 at every loop head the operand stack is back at `sp + maxN + 1` (`tail_entry_height`).
 
-STILL NOT PROVED: (1) a static bound on the operand-stack height at the positions BETWEEN two loop heads (it needs a
-stack-height analysis of the straight-line code of a body, with the nested closure regions of the enclosing code
-excluded — attempted, not finished); only the concrete loop has it (`core_tail_loop_any_count`: ≤ 5).  (2) The
-source-level statement `TailOnly e → tailOnlyB … (compileTop e)` for a syntactic predicate on `Core`: the predicate
-used is the check of the generated code itself.
+LATER ADDITIONS (end of this file): the source-level predicate `T.TailOnlySrc` with `core_loop_constant_space_src`, and
+the static bound on the operand stack in EVERY configuration, `core_loop_constant_space_and_stack_src` /
+`core_loop_constant_space_and_stack` (`≤ 2·maxLen + maxN + 1`; a coarse bound from "forward jumps + one push per
+instruction", not the exact height table).
 -/
 import SteelVerif.C09.CoreLoop
 import SteelVerif.C09.CoreWFStep
 import SteelVerif.C09.CoreSrc2
+import SteelVerif.C09.CoreStack2
 namespace SteelVerif.C09C
 open SteelVerif.C01C
 
@@ -707,5 +707,88 @@ def nestedJump : Core := .define 40 (.lam 1 false []
     (.lam 1 false [] (.ite (.loc 0 false) (.const (.int 1)) (.const (.int 2))))))
 example : tailOnlyB 3 primSlots [compileTop nestedJump] = false := by decide
 example : T.TailOnlySrc primSlots nestedJump = true := by decide
+
+/-! ## The operand stack of a tail-only program is bounded by a static bound
+
+`CoreStack.lean`, `CoreStack2.lean`.  At instruction boundaries jumps are forward (`fwd`, checked by the rules and
+proved for generated code), so inside a frame the instruction pointer only grows until the next (self) tail call, and
+an instruction adds at most one operand; every entry into a body starts at `sp + ≤ maxN + 1` operands.  Therefore in
+EVERY reachable configuration `stack.length ≤ 2·maxLen + maxN + 1` — a bound computed from the program text (`maxLen` =
+longest instruction sequence, `maxN` = largest operand count of a call), independent of the number of iterations. -/
+
+theorem T.num_bound {ps : Params} {c : Cfg} (hinv : T.Inv ps c) (hn : T.Num ps c) :
+    c.stack.length ≤ 2 * ps.maxLen + ps.maxN + 1 := by
+  unfold T.Num at hn
+  have hl := hinv.len
+  match hf : c.frames with
+  | [] => rw [hf] at hn; omega
+  | [fr] => rw [hf] at hn; omega
+  | _ :: _ :: _ => rw [hf] at hl; simp at hl
+
+theorem T.inv_num_steps {ps : Params} : ∀ (n : Nat) (c c' : Cfg), T.Inv ps c → T.Num ps c → steps n c = some c' →
+    T.Inv ps c' ∧ T.Num ps c' := by
+  intro n
+  induction n with
+  | zero => intro c c' h hn hs; simp [steps] at hs; subst hs; exact ⟨h, hn⟩
+  | succ n ih =>
+    intro c c' h hn hs
+    simp only [steps] at hs
+    cases hst : step c with
+    | next c2 => rw [hst] at hs; exact ih c2 c' (T.inv_step h hst) (T.num_step h hn hst) hs
+    | halt v st => rw [hst] at hs; cases hs
+    | err e => rw [hst] at hs; cases hs
+
+/-- **Tail-only SOURCE programs run with a statically bounded operand stack (and in one frame).**  For every reachable
+configuration of the compiled program — any number of steps of any top-level form, terminating or not:
+at most one frame and at most `2·maxLen + maxN + 1` operands. -/
+theorem core_loop_constant_space_and_stack_src (ps : Params) : ∀ (es : List Core) (st : St (List Instr)),
+    (∀ e, e ∈ es → T.TailOnlySrc ps e = true) → T.StOk ps st →
+    ∀ c, Reach (es.map compileTop) st c → c.frames.length ≤ 1 ∧ c.stack.length ≤ 2 * ps.maxLen + ps.maxN + 1 := by
+  intro es
+  induction es with
+  | nil => intro st _ _ c hr; cases hr
+  | cons e rest ih =>
+    intro st hok hst c hr
+    have hinit : T.Inv ps (initCfg (compileTop e) st) :=
+      ⟨T.GoodL.nil ps, hst, T.goodCode_top ps e (hok e (by simp)), T.Ok.zero _⟩
+    have hnum : T.Num ps (initCfg (compileTop e) st) := by simp [T.Num, initCfg]
+    simp only [List.map_cons] at hr
+    cases hr with
+    | here hs =>
+      obtain ⟨h1, h2⟩ := T.inv_num_steps _ _ _ hinit hnum hs
+      exact ⟨h1.len, T.num_bound h1 h2⟩
+    | later hrun hrest =>
+      exact ih _ (fun e' he' => hok e' (List.mem_cons_of_mem _ he')) (T.run_ok_stOk _ _ _ _ hinit hrun) c hrest
+
+/-- The same on instruction sequences (real listings): the boundary-based checker `T.goodCodeB` as the static predicate. -/
+theorem core_loop_constant_space_and_stack (fuel : Nat) (ps : Params) : ∀ (codes : List (List Instr))
+    (st : St (List Instr)), (∀ code, code ∈ codes → T.goodCodeB fuel ps true code = true) → T.StOk ps st →
+    ∀ c, Reach codes st c → c.frames.length ≤ 1 ∧ c.stack.length ≤ 2 * ps.maxLen + ps.maxN + 1 := by
+  intro codes
+  induction codes with
+  | nil => intro st _ _ c hr; cases hr
+  | cons code rest ih =>
+    intro st hok hst c hr
+    have hinit : T.Inv ps (initCfg code st) :=
+      ⟨T.GoodL.nil ps, hst, T.goodCodeB_sound ps fuel true code (hok code (by simp)), T.Ok.zero _⟩
+    have hnum : T.Num ps (initCfg code st) := by simp [T.Num, initCfg]
+    cases hr with
+    | here hs =>
+      obtain ⟨h1, h2⟩ := T.inv_num_steps _ _ _ hinit hnum hs
+      exact ⟨h1.len, T.num_bound h1 h2⟩
+    | later hrun hrest =>
+      exact ih _ (fun c' hc' => hok c' (List.mem_cons_of_mem _ hc')) (T.run_ok_stOk _ _ _ _ hinit hrun) c hrest
+
+-- instances: the mutual recursion, the captured-variable loop, the loop with a million iterations —
+-- one frame and at most 2·64 + 4 + 1 = 133 operands in every configuration
+example (c : Cfg) (hr : Reach ([m1, m2, m3, .callG 30 [.const (.int 100)]].map compileTop) (toSt ⟨[], primGlobals⟩) c) :
+    c.frames.length ≤ 1 ∧ c.stack.length ≤ 133 :=
+  core_loop_constant_space_and_stack_src primSlots _ _ (by decide) T.stOk_prims c hr
+example (c : Cfg)
+    (hr : Reach ([loopDef, .callG 12 [.const (.int 1000000), .const (.int 0)]].map compileTop) (toSt ⟨[], primGlobals⟩) c) :
+    c.frames.length ≤ 1 ∧ c.stack.length ≤ 133 :=
+  core_loop_constant_space_and_stack_src primSlots _ _ (by decide) T.stOk_prims c hr
+-- the boundary-based checker accepts the generated code of the nested-lambda example the first checker rejected
+example : T.goodCodeB 3 primSlots true (compileTop nestedJump) = true := by decide
 
 end SteelVerif.C09C
